@@ -2,7 +2,7 @@
 
 package stack
 
-// Plain replays of every defect that was found and repaired (DESIGN.md section
+// Plain replays of the defects that were found and repaired (D1-D12; D13 is a data race, re-detected by the race pass of C14) (DESIGN.md section
 // 10): each entry is the concrete failing input with the assertion it violated,
 // runnable without any explorer. A returning defect is reported under the
 // fingerprint "<prop>/regression:<name>".
